@@ -33,6 +33,28 @@ Modelling assumptions of this translator (trusted, cross-checked by T2): numpy s
 `reshape` of a flow to `(len(self),)` is the identity, Python ints used as lengths/indices are `Nat` (truncated `-`),
 `np.ones` in an exponent matrix (`power_matrix`) is the natural number 1 and `s ** k` for such k is `npow s k`,
 `e ** np.sign(y)` is `e`, `1` or `1/e`.
+
+Soundness rules (a form the denotation cannot express faithfully is UNTRANSLATABLE, never read as the benign form;
+regression tests: vk/test_translators.py):
+  * keywords: only the modelled ones (`axis=` of sum / cumsum, `dtype=float|np.float64` of array / ones / zeros,
+    `otypes=[float]` — required — of np.vectorize); `dtype=int|float16|…`, `out=`, `order=`, … reject the unit;
+  * in-place operators (`+=` …) only on a local name bound to a NEW array (np.zeros(…), an arithmetic result); on a
+    parameter, a `self.` attribute, an alias / view / reshape of one, or the result of another function they mutate
+    caller / shared (lru-cached) state and are rejected;
+  * a flow / price parameter is (n,) or (1, n) as passed in ("raw"): elementwise arithmetic, `.sum()`, `.size`,
+    `.cumsum()` and `reshape(len(self))`, `reshape((len(self),))`, `reshape(-1)` are denoted; `len(x)`, `x[i]`, `x[a:b]`,
+    `.shape`, hstack, np.diag, `.dot(x)` of a raw value, `.flatten()/.ravel()/np.squeeze` are rejected; a unit declared
+    `V1` takes a one-dimensional vector (its callers must hand it one); `x.dot(y)` needs y to be a known vector of the same
+    length; a vector built with an explicit length (ones / zeros / arange) must have the length of what it is combined
+    with; `e ** np.sign(y)` needs e or y to be known float (`float(e)`, `np.array(y, dtype=float)`);
+  * a lambda / nested def that reads a name its enclosing function rebinds (loop variable, name assigned twice or in a
+    loop) without capturing it as a default argument is late-binding and rejected;
+  * what binds the name of a unit besides its `def` (module-level / class-body rebinding, setattr, duplicate defs,
+    decorators other than the reviewed ones, a local definition or foreign import shadowing a helper) rejects it;
+  * every attribute read as a parameter (`self.c1`, `self.lbounds`, the fields of HLQuadraticCost …) or derived in
+    `__init__` (`_sustainment_matrix`, `_cost_fn`, `t_base`) must be DEFINED exactly as reviewed: the statements that
+    assign it anywhere in the class, its class-body default and its property are pinned verbatim in vk/t1_pins.json
+    (`python vk/translate_vec.py --pins /repo` rewrites the file after a review).
 """
 import ast, os, sys, hashlib, re
 
@@ -127,13 +149,18 @@ UNITS = [
   U(None, 'power_matrix', {'l': 'N'}, mode='n'),
   U(None, 'sustainment_matrix', {'s': 'S', 'l': 'N'}),
   U(None, 'base_soc', {'b': 'S', 's': 'S', 'l': 'N'}),
-  U(None, 'soc', {'r': 'V', 's': 'S', 'e': 'S'}),
+  U(None, 'soc', {'r': 'V1', 's': 'S', 'e': 'S'}),      # V1: one-dimensional (the function itself raises on any other shape)
   # Device / CDevice
   U('Device', 'cost'), U('Device', 'deriv'), U('Device', 'hess'),
   U('CDevice', 'cost'), U('CDevice', 'deriv'), U('CDevice', 'hess'),
   # storage
-  U('SDevice', 'base'), U('SDevice', 'charge_at'), U('SDevice', 'charge_at_lossless'),
-  U('SDevice', 'deep_damage_at'), U('SDevice', 'deep_damage_at_deriv'), U('SDevice', 'flip_cost_at'),
+  # charge_at / deep_damage_at(_deriv) hand `r` to utils.soc, which accepts a (len(self),) vector only: V1.  A caller that
+  # hands them a flow it did not reshape (dropped `r = r.reshape((len(self),))`) is untranslatable.
+  U('SDevice', 'base'), U('SDevice', 'charge_at', {'r': 'V1'}), U('SDevice', 'charge_at_lossless'),
+  U('SDevice', 'deep_damage_at', {'r': 'V1'}),
+  # `r` is one-dimensional by contract: the helper is reached through charge_costs_deriv after `r.reshape((len(self),))`,
+  # and for any other shape its own `charge_at -> utils.soc` raises (shape guard), so it has no value to denote there
+  U('SDevice', 'deep_damage_at_deriv', {'r': 'V1'}), U('SDevice', 'flip_cost_at'),
   U('SDevice', 'charge_costs'), U('SDevice', 'charge_costs_deriv'),
   U('SDevice', 'costv'), U('SDevice', 'cost'), U('SDevice', 'deriv'),
   # function classes over the scalar kernels
@@ -142,13 +169,15 @@ UNITS = [
   U('IDevice2', 'costv'), U('IDevice2', 'cost'), U('IDevice2', 'deriv'), U('IDevice2', 'hess'),
   U('IDevice', 'costv'), U('IDevice', 'cost'), U('IDevice', 'deriv'), U('IDevice', 'hess'),
   # thermal
-  U('TDevice', '_make_t_base', {'t_external': 'V', 'sustainment': 'S', 't_init': 'S'}),
+  U('TDevice', '_make_t_base', {'t_external': 'V1', 'sustainment': 'S', 't_init': 'S'}),
   U('TDevice', 'r2t'), U('TDevice', 'costv_t'), U('TDevice', 'deriv_t'),
   U('TDevice', 'costv'), U('TDevice', 'cost'), U('TDevice', 'deriv'),
   # combinators of functions.py (higher order: the wrapped function object is a parameter)
   U('NullFunction', '__call__'), U('NullFunction', 'deriv'), U('NullFunction', 'hess'),
   U('ReflectedFunction', '__call__'), U('ReflectedFunction', 'deriv'), U('ReflectedFunction', 'hess'),
-  U('InnerSumFunction', '__call__'), U('InnerSumFunction', 'deriv'), U('InnerSumFunction', 'hess'),
+  U('InnerSumFunction', '__call__'),
+  # functions.py documents its input as a vector (N,) and uses len(x) as N (so the unit is about vectors)
+  U('InnerSumFunction', 'deriv', {'x': 'V1'}), U('InnerSumFunction', 'hess', {'x': 'V1'}),
   U('Poly2D', 'vector'), U('Poly2D', '__call__'), U('Poly2DOffset', 'vector'), U('Poly2DOffset', '__call__'),
   # wrappers around a function object built elsewhere (setter / __init__): sign conventions and price terms
   U('GDevice', 'costv'), U('GDevice', 'cost'), U('GDevice', 'deriv'), U('GDevice', 'hess'),
@@ -186,12 +215,232 @@ def lname(x):
 
 
 # ----------------------------------------------------------------------------------------------- values
+def is_float_dtype(node):
+  """`dtype=float` / `np.float64` / `np.double`: the only dtypes the real-number denotation stands for."""
+  if isinstance(node, ast.Name) and node.id == 'float': return True
+  return isinstance(node, ast.Attribute) and isinstance(node.value, ast.Name) and node.value.id == 'np' and node.attr in ('float64', 'double')
+
+
+# numpy constructors whose result is a NEW array (an in-place operator on it cannot reach caller / shared state)
+NP_FRESH = {'zeros', 'ones', 'array', 'arange', 'hstack', 'vstack', 'concatenate', 'minimum', 'maximum', 'abs', 'sign', 'tril', 'triu',
+            'stack', 'tile', 'repeat'}
+
+
+def fresh_expr(node):
+  """does this expression build a new object (so that `x += …` on the name bound to it is local)?"""
+  if isinstance(node, (ast.BinOp, ast.UnaryOp, ast.ListComp, ast.List, ast.Tuple, ast.Constant, ast.Dict)): return True
+  if isinstance(node, ast.Call) and isinstance(node.func, ast.Attribute) and isinstance(node.func.value, ast.Name) \
+     and node.func.value.id == 'np' and node.func.attr in NP_FRESH:
+    return not any(k.arg in ('out', 'copy') for k in node.keywords)
+  return False
+
+
+def free_names(node):
+  """names a lambda / nested def reads from its enclosing scope (not its parameters, not its own locals)."""
+  args = node.args
+  bound = {a.arg for a in args.args + args.kwonlyargs + ([args.vararg] if args.vararg else []) + ([args.kwarg] if args.kwarg else [])}
+  body = node.body if isinstance(node.body, list) else [node.body]
+  if not isinstance(node, ast.Lambda):
+    for x in body:
+      for y in ast.walk(x):
+        if isinstance(y, (ast.Assign, ast.AugAssign, ast.For)):
+          for t in (y.targets if isinstance(y, ast.Assign) else [y.target]):
+            for z in ast.walk(t):
+              if isinstance(z, ast.Name): bound.add(z.id)
+  free = set()
+  def walk(x, bound):
+    if isinstance(x, (ast.Lambda, ast.FunctionDef)):
+      inner = bound | {a.arg for a in x.args.args}
+      for d in x.args.defaults: walk(d, bound)           # defaults are evaluated in the enclosing scope
+      for y in (x.body if isinstance(x.body, list) else [x.body]): walk(y, inner)
+      return
+    if isinstance(x, ast.comprehension): pass
+    if isinstance(x, (ast.ListComp, ast.GeneratorExp, ast.SetComp, ast.DictComp)):
+      inner = set(bound)
+      for g in x.generators:
+        walk(g.iter, inner)
+        for z in ast.walk(g.target):
+          if isinstance(z, ast.Name): inner.add(z.id)
+        for c in g.ifs: walk(c, inner)
+      for y in ([x.elt] if hasattr(x, 'elt') else [x.key, x.value]): walk(y, inner)
+      return
+    if isinstance(x, ast.Name):
+      if isinstance(x.ctx, ast.Load) and x.id not in bound: free.add(x.id)
+      return
+    for y in ast.iter_child_nodes(x): walk(y, bound)
+  for x in body: walk(x, bound)
+  return free
+
+
+def unstable_names(fn):
+  """names of a function body that do not have one fixed value for the closures created in it: bound more than once,
+  or bound inside a loop (loop targets, assignments in loop bodies, tuple-unpacked loop items)."""
+  count = {}; inloop = set()
+  def targets(t):
+    return [z.id for z in ast.walk(t) if isinstance(z, ast.Name)]
+  def visit(stmts, loop):
+    for s in stmts:
+      if isinstance(s, (ast.FunctionDef, ast.Lambda)):
+        if isinstance(s, ast.FunctionDef):
+          count[s.name] = count.get(s.name, 0) + 1
+          if loop: inloop.add(s.name)
+        continue
+      names = []
+      if isinstance(s, ast.Assign):
+        for t in s.targets: names += targets(t)
+      elif isinstance(s, (ast.AugAssign, ast.AnnAssign)): names += targets(s.target)
+      elif isinstance(s, ast.For): names += targets(s.target)
+      elif isinstance(s, ast.With):
+        for it in s.items:
+          if it.optional_vars is not None: names += targets(it.optional_vars)
+      for n_ in names:
+        count[n_] = count.get(n_, 0) + 1
+        if loop or isinstance(s, ast.For): inloop.add(n_)
+      for fld in ('body', 'orelse', 'finalbody'):
+        sub = getattr(s, fld, None)
+        if isinstance(sub, list) and sub and isinstance(sub[0], ast.stmt):
+          visit(sub, loop or isinstance(s, (ast.For, ast.While)))
+      for h in getattr(s, 'handlers', []): visit(h.body, loop)
+  visit(fn.body, False)
+  return {n_ for n_, c in count.items() if c > 1} | inloop
+
+
+# ----------------------------------------------------------------------------------------------- bindings around the units
+HELPERS = ('soc', 'base_soc', 'sustainment_matrix', 'power_matrix', 'zmm')
+# decorators a translated function / method is allowed to carry (anything else changes what the name denotes)
+OK_DECORATORS = {('utils.py', None, 'sustainment_matrix'): ['functools.lru_cache()'], ('utils.py', None, 'power_matrix'): ['functools.lru_cache()']}
+
+
+def scan_bindings(pkg_dir, class_names):
+  """what, apart from its `def`, binds the name of a translated function / method?  Returns
+    tainted : {(class or None, name): reason}   module-level / class-body rebinding, duplicate defs, setattr, decorators
+    shadow  : {file: {helper names redefined or imported from elsewhere in that file}}
+  A unit whose name is tainted, or that calls a shadowed helper, is untranslatable: its `def` is not what runs."""
+  tainted, shadow = {}, {}
+  def taint(key, why):
+    tainted.setdefault(key, why)
+  for fn in sorted(os.listdir(pkg_dir)):
+    if not fn.endswith('.py'): continue
+    try:
+      tree = ast.parse(open(os.path.join(pkg_dir, fn)).read())
+    except SyntaxError:
+      continue
+    seen_top = {}
+    for node in tree.body:
+      tgts = []
+      if isinstance(node, ast.Assign): tgts = node.targets
+      elif isinstance(node, (ast.AugAssign, ast.AnnAssign)): tgts = [node.target]
+      for t in tgts:
+        for z in ast.walk(t):
+          if isinstance(z, ast.Attribute) and isinstance(z.value, ast.Name) and z.value.id in class_names:
+            taint((z.value.id, z.attr), '%s:%d rebinds %s.%s at module level' % (fn, node.lineno, z.value.id, z.attr))
+          if isinstance(z, ast.Name) and (z.id in class_names or (z.id in HELPERS)):
+            if z.id in HELPERS and fn != 'utils.py': shadow.setdefault(fn, set()).add(z.id)
+            else: taint((None, z.id) if z.id in HELPERS else (z.id, '*'), '%s:%d rebinds %s at module level' % (fn, node.lineno, z.id))
+      if isinstance(node, ast.Expr) and isinstance(node.value, ast.Call) and isinstance(node.value.func, ast.Name) and node.value.func.id == 'setattr' \
+         and node.value.args and isinstance(node.value.args[0], ast.Name) and node.value.args[0].id in class_names:
+        a1 = node.value.args[1] if len(node.value.args) > 1 else None
+        taint((node.value.args[0].id, a1.value if isinstance(a1, ast.Constant) else '*'), '%s:%d setattr on %s' % (fn, node.lineno, node.value.args[0].id))
+      if isinstance(node, (ast.FunctionDef, ast.ClassDef)):
+        if node.name in HELPERS and fn != 'utils.py': shadow.setdefault(fn, set()).add(node.name)
+        if node.name in seen_top: taint((None, node.name) if isinstance(node, ast.FunctionDef) else (node.name, '*'), '%s:%d defines %s twice' % (fn, node.lineno, node.name))
+        seen_top[node.name] = node
+        if isinstance(node, ast.FunctionDef) and fn == 'utils.py':
+          decs = [ast.unparse(d) for d in node.decorator_list]
+          if decs != OK_DECORATORS.get((fn, None, node.name), []):
+            taint((None, node.name), '%s:%d decorators %s on %s' % (fn, node.lineno, decs, node.name))
+      if isinstance(node, ast.ImportFrom):
+        for al in node.names:
+          nm = al.asname or al.name
+          if nm in HELPERS and not (node.module or '').endswith('utils'): shadow.setdefault(fn, set()).add(nm)
+          if al.asname in HELPERS and al.name != al.asname: shadow.setdefault(fn, set()).add(al.asname)
+      if isinstance(node, ast.ClassDef) and node.name in class_names:
+        seen = {}
+        for b in node.body:
+          if isinstance(b, ast.FunctionDef):
+            decs = [ast.unparse(d) for d in b.decorator_list]
+            plain = [d for d in decs if d not in ('property', 'staticmethod', 'classmethod', 'abstractmethod') and not d.endswith('.setter')]
+            if plain: taint((node.name, b.name), '%s:%d decorator %s on %s.%s' % (fn, b.lineno, plain[0], node.name, b.name))
+            kind = 'setter' if any(d.endswith('.setter') for d in decs) else 'def'
+            if (b.name, kind) in seen: taint((node.name, b.name), '%s:%d %s.%s is defined twice' % (fn, b.lineno, node.name, b.name))
+            seen[(b.name, kind)] = b
+          tg = b.targets if isinstance(b, ast.Assign) else [b.target] if isinstance(b, (ast.AugAssign, ast.AnnAssign)) else []
+          for t in tg:
+            for z in ast.walk(t):
+              if isinstance(z, ast.Name) and not z.id.startswith('_'):
+                taint((node.name, z.id), '%s:%d class body of %s rebinds `%s`' % (fn, b.lineno, node.name, z.id))
+        for b in node.body:      # a class-body assignment that follows / precedes a def of the same name
+          if isinstance(b, ast.FunctionDef) and (node.name, b.name) in tainted: pass
+  return tainted, shadow
+
+
+def attr_slice(classes, cls, attr):
+  """every statement that defines `self.<attr>` / `self._<attr>` in `cls` (and in its parsed base classes): assignments in
+  any method, class-body defaults, the property of that name.  Compared verbatim with the reviewed pins (vk/t1_pins.json)."""
+  names = {attr, '_' + attr.lstrip('_'), attr.lstrip('_')}
+  out = []
+  todo, done = [cls], set()
+  while todo:
+    c = todo.pop(0)
+    if c in done or c not in classes: continue
+    done.add(c)
+    node = classes[c]
+    for b in node.bases:
+      if isinstance(b, ast.Name): todo.append(b.id)
+    for b in node.body:
+      if isinstance(b, (ast.Assign, ast.AnnAssign)):
+        for t in (b.targets if isinstance(b, ast.Assign) else [b.target]):
+          if any(isinstance(z, ast.Name) and z.id in names for z in ast.walk(t)): out.append('%s: %s' % (c, ast.unparse(b)))
+      if isinstance(b, ast.FunctionDef):
+        if b.name in names and any(ast.unparse(d) == 'property' for d in b.decorator_list) \
+           and not any(ast.unparse(d) == 'abstractmethod' for d in b.decorator_list):
+          out.append('%s: %s' % (c, ast.unparse(b)))
+        for st in ast.walk(b):
+          tg = st.targets if isinstance(st, ast.Assign) else [st.target] if isinstance(st, (ast.AugAssign, ast.AnnAssign)) else []
+          for t in tg:
+            if any(isinstance(z, ast.Attribute) and isinstance(z.value, ast.Name) and z.value.id == 'self' and z.attr in names for z in ast.walk(t)):
+              out.append('%s.%s: %s' % (c, b.name, ast.unparse(st))); break
+  return out
+
+
+PINS_FILE = os.path.join(HERE, 't1_pins.json')
+_pins = None
+
+
+def pins():
+  global _pins
+  if _pins is None:
+    import json
+    _pins = json.load(open(PINS_FILE)) if os.path.exists(PINS_FILE) else {}
+  return _pins
+
+
+RECORD = None      # when a dict: check_pin records the current definitions instead of comparing (`--pins`)
+
+
+def check_pin(classes, cls, attr):
+  """the definition of a declared / derived attribute must be the reviewed one."""
+  base = re.sub(r'\[\d+\]$', '', attr).replace('()', '')
+  got = attr_slice(classes, cls, base)
+  if RECORD is not None:
+    RECORD.setdefault(cls, {})[base] = got
+    return
+  want = pins().get(cls, {}).get(base)
+  if want is None: raise Unsupported('no reviewed definition (vk/t1_pins.json) of %s.%s' % (cls, base))
+  if got != want:
+    diff = [x for x in got if x not in want] + ['(missing) ' + x for x in want if x not in got]
+    raise Unsupported('%s.%s is not defined as reviewed (vk/t1_pins.json): %s' % (cls, base, '; '.join(diff)[:200]))
+
+
 class Val:
   def __init__(self, kind, **kw):
     self.kind = kind               # S scalar, I static int, N nat, B static bool, V vector, C column, M matrix,
     self.ek = 'a'                  # L python list (pieces), T tuple, F lambda/closure, O object, K kernel, P prop
     self.term = None; self.elem = None; self.length = None; self.rows = None; self.cols = None
     self.zero = False; self.atom = None; self.sign_of = None; self.slice = None
+    self.raw = False               # a flow parameter as passed in: (n,) or (1, n) — only shape-agnostic operations are denoted
+    self.isfloat = False           # known to be float-typed: float(x), np.array(x, dtype=float) and what is computed from them
+    self.made = False              # built by np.ones / zeros / arange: its length is checked against what it is combined with
     self.__dict__.update(kw)
 
 
@@ -203,6 +452,22 @@ def M(elem, rows, cols, ek='a', **kw): return Val('M', elem=elem, rows=rows, col
 def C(elem, rows, ek='a'): return Val('C', elem=elem, rows=rows, ek=ek)
 
 TY = {'a': 'α', 'n': 'Nat', 'e': 'ε'}
+
+
+def norm_len(t):
+  t = re.sub(r'\s+', '', t)
+  while t.startswith('(') and t.endswith(')') and paren_ok(t[1:-1]): t = t[1:-1]
+  return re.sub(r'\((\d+):Nat\)', r'\1', t)
+
+
+def paren_ok(t):
+  d = 0
+  for c in t:
+    if c == '(': d += 1
+    if c == ')':
+      d -= 1
+      if d < 0: return False
+  return d == 0
 
 
 def lit(k, ek):
@@ -233,6 +498,7 @@ class Ctx:
     self.mode = unit.mode
     self.attr_cache = {}
     self.enclosing = None     # lazy environment of an enclosing function (nested units)
+    self.fresh_names = set()  # local names bound to a newly built array (in-place operators on them are local)
 
   def fresh(self):
     self.k += 1
@@ -285,8 +551,24 @@ class Ctx:
     if 'C' in kinds:
       return C(lambda i: f(*[self.at(v, ek, i) for v in vals]), pick('rows', 'C'), ek)
     if 'V' in kinds:
-      return V(lambda i: f(*[self.at(v, ek, i) for v in vals]), pick('length', 'V'), ek)
-    return S(f(*[self.sc(v, ek) for v in vals]), ek)
+      self.check_made(vals)
+      r = V(lambda i: f(*[self.at(v, ek, i) for v in vals]), pick('length', 'V'), ek)
+      r.raw = any(v.kind == 'V' and v.raw for v in vals)
+      r.isfloat = any(v.isfloat for v in vals)
+      return r
+    r = S(f(*[self.sc(v, ek) for v in vals]), ek)
+    r.isfloat = any(v.isfloat for v in vals)
+    return r
+
+  def check_made(self, vals):
+    """a vector built with an explicit length (np.ones(k), np.zeros(k), np.arange) combined with another vector of known
+    length must have that length (numpy would broadcast a length-1 / raise otherwise)."""
+    vs = [v for v in vals if v.kind == 'V' and v.length is not None]
+    for a in vs:
+      if a.made:
+        for b in vs:
+          if b is not a and norm_len(a.length) != norm_len(b.length):
+            raise Unsupported('a vector built with length %s is combined with a vector of length %s' % (a.length, b.length))
 
   def bop(self, op, a, b):
     sym = {ast.Add: '+', ast.Sub: '-', ast.Mult: '*', ast.Div: '/'}.get(type(op))
@@ -309,6 +591,10 @@ class Ctx:
       if k == 0: return self.ew(lambda x: lit(1, 'a'), [a])
       return self.ew(lambda x: '(' + ' * '.join([x] * k) + ')', [a])
     if b.sign_of is not None:
+      # `e ** np.sign(y)` has a negative exponent where y < 0: numpy raises for an integer base with an integer exponent
+      # array, so either the base or y must be known to be float-typed (float(e), np.array(y, dtype=float))
+      if not (a.isfloat or b.sign_of.isfloat or b.isfloat):
+        raise Unsupported('`e ** np.sign(y)` where neither e nor y is known to be float-typed (integer data would raise)')
       return self.ew(lambda x, y: '(sgnPow %s %s)' % (x, y), [a, b.sign_of], 'a')
     if b.ek == 'n' and b.kind in 'NSVCM':
       if a.ek != 'a': raise Unsupported('power of a non-scalar base kind')
@@ -343,6 +629,9 @@ class Ctx:
     if kind == 'S': return self.sc(v, 'a')
     if kind == 'N': return self.sc(v, 'n')
     if kind == 'V': return self.vec_term(v, 'a')
+    if kind == 'V1':
+      if v.kind == 'V' and v.raw: raise Unsupported('a flow that was not reshaped is handed to a unit that takes a (len(self),) vector')
+      return self.vec_term(v, 'a')
     if kind == 'VE':
       if v.kind == 'V' and v.ek == 'e': return self.vec_term(v, 'e')
       if v.kind == 'I': return '(fun _ => %s)' % lit(v.term, 'e')
@@ -370,7 +659,9 @@ class Ctx:
       if p.kind == 'L':
         for q in p.pieces: add(q)
       elif p.kind in 'ISN': flat.append(V(None, '1', 'a', const=p))
-      elif p.kind == 'V': flat.append(p)
+      elif p.kind == 'V':
+        if p.raw: raise Unsupported('concatenation of a flow that was not reshaped to (len(self),)')
+        flat.append(p)
       else: raise Unsupported('hstack piece of kind ' + p.kind)
     for p in pieces: add(p)
     if not flat: raise Unsupported('empty concatenation')
@@ -443,6 +734,7 @@ class Ctx:
     table = ATTRS.get(cls, {})
     if name in table:
       kind = table[name]
+      if kind not in ('O', 'O1', 'OV'): check_pin(self.tu.classes, cls, name)
       if name not in OPAQUE and '[' not in name:
         p = self.find_method(name, prop=True)
         if p is not None:
@@ -471,6 +763,7 @@ class Ctx:
       raise Unsupported('property %s.%s is not a single return' % (cls, name))
     hits = self.init_assign(name)
     if len(hits) == 1:
+      check_pin(self.tu.classes, cls, name)      # e.g. a cache that a setter must refresh: every assignment is reviewed
       v = self.ev(hits[0], {'__init__': True})
       self.attr_cache[name] = v
       return v
@@ -505,6 +798,7 @@ class Ctx:
         return self.self_attr(e.attr)
       b = self.ev(e.value, env)
       if e.attr == 'size' and b.kind == 'V' and b.length is not None: return N(b.length)
+      if e.attr == 'shape' and b.kind == 'V' and b.raw: raise Unsupported('shape of a flow that was not reshaped')
       if e.attr == 'shape' and b.kind == 'V': return Val('T', items=[N(b.length or '?')])
       if e.attr == 'shape' and b.kind == 'M': return Val('T', items=[N(b.rows or '?'), N(b.cols or '?')])
       raise Unsupported('attribute .' + e.attr)
@@ -538,6 +832,7 @@ class Ctx:
       return self.self_attr('%s[%s]' % (e.value.attr, e.slice.value))
     b = self.ev(e.value, env)
     sl = e.slice
+    if b.kind == 'V' and b.raw: raise Unsupported('index / slice of a flow that was not reshaped to (len(self),)')
     if isinstance(sl, ast.Slice):
       if b.kind != 'V' or sl.step is not None: raise Unsupported('slice of kind ' + b.kind)
       if b.length is None: raise Unsupported('slice of a vector of unknown length')
@@ -646,14 +941,21 @@ class Ctx:
         if isinstance(a, ast.Name) and a.id == 'self' and 'self' not in env: return N('n')
         v = self.ev(a, env)
         if v.kind == 'V':
+          if v.raw: raise Unsupported('len() of a flow that was not reshaped to (len(self),) (a (1, n) row has length 1)')
           if v.length is None: raise Unsupported('len of a vector of unknown length')
           return N(v.length)
         if v.kind in 'TL' and v.items is not None: return I(len(v.items))
         if v.kind == 'M': return N(v.rows)
         raise Unsupported('len of kind ' + v.kind)
-      if f.id == 'float' and len(e.args) == 1: return self.ev(e.args[0], env)
+      if f.id == 'float' and len(e.args) == 1 and not e.keywords:
+        v = self.ev(e.args[0], env)
+        if v.kind not in 'SIN': raise Unsupported('float() of kind ' + v.kind)
+        r = S(self.sc(v, 'a')); r.isfloat = True
+        return r
       if f.id in env or (self.enclosing is not None and f.id in self.enclosing):
         return self.apply(self.ev(f, env), e, env)
+      if f.id in self.tu.shadow.get(self.unit.file, ()):
+        raise Unsupported('`%s` is redefined / imported from elsewhere in %s: the call does not reach utils.%s' % (f.id, self.unit.file, f.id))
       u = self.tu.units.get((None, f.id, None))
       if u is not None and self.unit.cls is not None or (u is not None and u is not self.unit):
         return self.call_unit(u, e, env, None)
@@ -720,7 +1022,9 @@ class Ctx:
     vs = [v for v in vals if v.kind == 'V']
     if not vs: return S(one())
     ls = [v.length for v in vs if v.length is not None]
-    return V(lambda i: one(i), ('n' if 'n' in ls else ls[0]) if ls else None)
+    r = V(lambda i: one(i), ('n' if 'n' in ls else ls[0]) if ls else None)
+    r.raw = any(v.raw for v in vs)
+    return r
 
   def construct(self, cls, e, env):
     """`Cls(args)` for a function class: bind the constructor arguments to the declared fields."""
@@ -741,6 +1045,7 @@ class Ctx:
             field_of[tt.attr] = vv.id
     fields = {}
     for a in ATTRS[cls]:
+      check_pin(self.tu.classes, cls, a)
       if a not in field_of or field_of[a] not in vals: raise Unsupported('constructor of %s does not bind field %s' % (cls, a))
       fields[a] = vals[field_of[a]]
     return Val('O', cls=cls, fields=fields, hof=None)
@@ -784,7 +1089,7 @@ class Ctx:
     if u.has_n:
       if recv == 'self': narg = 'n'
       else:
-        ls = [vals[p].length for p, k in u.params if k == 'V' and vals[p].kind == 'V' and vals[p].length is not None]
+        ls = [vals[p].length for p, k in u.params if k in ('V', 'V1') and vals[p].kind == 'V' and vals[p].length is not None]
         narg = ls[0] if ls else 'n'
       parts.append(narg)
     if u.cls is not None:
@@ -810,7 +1115,19 @@ class Ctx:
     if k_ == 'M': return M(lambda i, j: '(%s %s %s)' % (head, i, j), rl, rl, ek)
     raise Unsupported('callee result kind')
 
+  NP_KW = {'array': ('dtype',), 'ones': ('dtype',), 'zeros': ('dtype',)}
+
+  def check_np_kw(self, fn, e, table=None):
+    """a keyword the denotation does not model makes the unit untranslatable (dtype: only float / np.float64)."""
+    table = self.NP_KW if table is None else table
+    for k in e.keywords:
+      if k.arg is None or k.arg not in table.get(fn, ()):
+        raise Unsupported('keyword %s= of np.%s is not modelled' % (k.arg, fn))
+      if k.arg == 'dtype' and not is_float_dtype(k.value):
+        raise Unsupported('np.%s with a dtype other than float / np.float64' % fn)
+
   def numpy(self, fn, e, env):
+    self.check_np_kw(fn, e)
     args = [self.ev(a, env) for a in e.args]
     kws = {k.arg: k.value for k in e.keywords}
     def zero_one(k):
@@ -818,8 +1135,8 @@ class Ctx:
       a = args[0]
       ek = 'n' if self.mode == 'n' else 'a'
       t = lit(k, ek)
-      if a.kind in 'IN': return V(lambda i: t, self.sc(a, 'n') if a.kind == 'N' else str(a.term), ek, zero=(k == 0))
-      if a.kind == 'T' and len(a.items) == 1 and a.items[0].kind in 'IN': return V(lambda i: t, self.sc(a.items[0], 'n'), ek, zero=(k == 0))
+      if a.kind in 'IN': return V(lambda i: t, self.sc(a, 'n') if a.kind == 'N' else str(a.term), ek, zero=(k == 0), made=True)
+      if a.kind == 'T' and len(a.items) == 1 and a.items[0].kind in 'IN': return V(lambda i: t, self.sc(a.items[0], 'n'), ek, zero=(k == 0), made=True)
       if a.kind == 'T' and len(a.items) == 2 and all(x.kind in 'IN' for x in a.items):
         return M(lambda i, j: t, self.sc(a.items[0], 'n'), self.sc(a.items[1], 'n'), ek, zero=(k == 0))
       raise Unsupported('np.%s shape' % fn)
@@ -830,7 +1147,11 @@ class Ctx:
       a = args[0]
       if a.kind == 'L': return self.concat(a.pieces)
       if a.kind == 'LM': return M(a.elem, a.rows, a.cols, a.ek)
-      if a.kind in 'SVM': return a
+      if a.kind in 'SVM':
+        if 'dtype' in kws:
+          import copy
+          a = copy.copy(a); a.isfloat = True
+        return a
       if a.kind in 'IN': return S(self.sc(a, 'a'))
       raise Unsupported('np.array of kind ' + a.kind)
     if fn == 'atleast_1d' and len(args) == 1 and args[0].kind == 'V': return args[0]
@@ -852,10 +1173,12 @@ class Ctx:
     if fn == 'arange' and 1 <= len(args) <= 2 and all(a.kind in 'IN' for a in args):
       lo, hi = (I(0), args[0]) if len(args) == 1 else args
       a, b = self.sc(lo, 'n') if lo.kind == 'N' else str(lo.term), self.sc(hi, 'n') if hi.kind == 'N' else str(hi.term)
-      return V(lambda i: idx_add(i, a), b if a == '0' else '(%s - %s)' % (b, a), 'n')
+      return V(lambda i: idx_add(i, a), b if a == '0' else '(%s - %s)' % (b, a), 'n', made=True)
     if fn == 'diag' and len(args) == 1:
       a = args[0]
-      if a.kind == 'V': return M(lambda i, j: '(if %s = %s then %s else %s)' % (i, j, a.elem(i), lit(0, a.ek)), a.length, a.length, a.ek)
+      if a.kind == 'V':
+        if a.raw: raise Unsupported('np.diag of a flow that was not reshaped to (len(self),)')
+        return M(lambda i, j: '(if %s = %s then %s else %s)' % (i, j, a.elem(i), lit(0, a.ek)), a.length, a.length, a.ek)
       if a.kind == 'M': return V(lambda i: a.elem(i, i), a.rows, a.ek)
       raise Unsupported('np.diag of kind ' + a.kind)
     raise Unsupported('np.' + fn)
@@ -867,6 +1190,9 @@ class Ctx:
     raise Unsupported('np.vectorize of something that is not a translated scalar kernel')
 
   def method(self, b, m, e, env):
+    for k in e.keywords:
+      if k.arg is None or k.arg not in {'sum': ('axis',), 'cumsum': ('axis',)}.get(m, ()):
+        raise Unsupported('keyword %s= of .%s() is not modelled' % (k.arg, m))
     args = [self.ev(a, env) for a in e.args]
     kws = {k.arg: self.ev(k.value, env) for k in e.keywords}
     if m == 'sum':
@@ -893,13 +1219,19 @@ class Ctx:
       return self.vsum(b)
     if m == 'dot' and len(args) == 1 and not kws:
       if b.kind == 'V' and args[0].kind == 'V':
-        return self.vsum(self.ew(lambda x, y: '(%s * %s)' % (x, y), [b, args[0]]))
+        # x.dot(y) is Σ x_k y_k only if y is a vector (for a scalar y it is the elementwise product): y must be a known
+        # (n,) vector — an attribute / matrix row / constructed vector, not a flow or price parameter as passed in
+        if args[0].raw: raise Unsupported('.dot() with an argument that is not known to be a vector (a scalar price makes it a product)')
+        if b.length is not None and args[0].length is not None and norm_len(b.length) != norm_len(args[0].length):
+          raise Unsupported('.dot() of vectors of lengths %s and %s' % (b.length, args[0].length))
+        r = self.vsum(self.ew(lambda x, y: '(%s * %s)' % (x, y), [b, args[0]]))
+        return r
       raise Unsupported('.dot of kinds %s, %s' % (b.kind, args[0].kind))
     if m == 'cumsum':
       if b.kind == 'V' and not args and not kws:
         def el(i):
           k = self.fresh(); return '(sumTo (%s + 1) (fun %s => %s))' % (i, k, b.elem(k))
-        return V(el, b.length, b.ek)
+        return V(el, b.length, b.ek)      # numpy flattens when no axis is given: (n,) for a (1, n) row too
       axis = kws.get('axis', args[0] if args else None)
       if b.kind == 'M' and axis is not None and axis.kind == 'I' and axis.term == 1:
         def el2(i, j):
@@ -910,14 +1242,15 @@ class Ctx:
       return V(lambda i: b.elem(i, i), b.rows, b.ek)
     if m == 'transpose' and b.kind == 'M' and not args and not kws:
       return M(lambda i, j: b.elem(j, i), b.cols, b.rows, b.ek)
-    if m == 'flatten' and b.kind == 'V' and not args and not kws: return b
     if m == 'reshape' and not kws:
       if b.kind != 'V': raise Unsupported('reshape of kind ' + b.kind)
       dims = args[0].items if len(args) == 1 and args[0].kind == 'T' else args
       def is_len(d): return (d.kind == 'N' and (b.length is None or d.term == b.length)) or (d.kind == 'I' and d.term == -1)
       if len(dims) == 1 and is_len(dims[0]):
-        if b.length is None and dims[0].kind == 'N': b.length = dims[0].term
-        return b
+        # reshape(len(self)) / reshape((len(self),)) / reshape(-1): the same entries as a (n,) vector
+        r = V(b.elem, b.length if b.length is not None else (dims[0].term if dims[0].kind == 'N' else None), b.ek, atom=b.atom)
+        r.zero, r.sign_of, r.made, r.isfloat = b.zero, b.sign_of, b.made, b.isfloat
+        return r
       if len(dims) == 2 and is_len(dims[0]) and dims[1].kind == 'I' and dims[1].term == 1:
         return C(b.elem, b.length, b.ek)
       raise Unsupported('reshape to an unsupported shape')
@@ -939,11 +1272,17 @@ class Ctx:
       return self.ev(s.value, env)
     if isinstance(s, ast.Assign) and len(s.targets) == 1 and isinstance(s.targets[0], ast.Name):
       env = dict(env); env[s.targets[0].id] = self.ev(s.value, env)
+      (self.fresh_names.add if fresh_expr(s.value) else self.fresh_names.discard)(s.targets[0].id)
       return self.run(rest, env)
     if isinstance(s, ast.AugAssign) and isinstance(s.target, ast.Name) and s.target.id in env:
+      self.check_inplace(s.target.id)
       env = dict(env); env[s.target.id] = self.bop(s.op, self.ev(s.target, env), self.ev(s.value, env))
       return self.run(rest, env)
     if isinstance(s, ast.If) and not s.orelse:
+      g = self.shape_guard(s, env)
+      if g is not None:
+        env = dict(env); env[g[0]] = g[1]
+        return self.run(rest, env)
       c = self.cond(s.test, env)
       last = s.body[-1]
       if isinstance(last, ast.Raise):
@@ -959,6 +1298,7 @@ class Ctx:
         raise Unsupported('loop form (only `for i in range(a, b): acc += e` is in the subset)')
       lo, hi = rg
       acc = s.body[0].target.id; d0 = self.ev(s.body[0].target, env)
+      self.check_inplace(acc)
       var = s.target.id
       def summand(k):
         env2 = dict(env); env2[var] = N(k)
@@ -978,6 +1318,27 @@ class Ctx:
       if d0.zero and sumv.kind == 'V' and sumv.length is None: sumv.length = d0.length
       return self.run(rest, env)
     raise Unsupported(type(s).__name__ + ' statement')
+
+  def check_inplace(self, name):
+    """`x += e` (and -=, *=, /=) mutates the object `x` is bound to: only a local name bound to a newly built array may
+    be updated in place; a parameter, a `self.` attribute, an alias / view / reshape of one, or the result of another
+    function (possibly cached and shared) may not — reading the statement as a rebinding would be wrong for the caller."""
+    if name not in self.fresh_names:
+      raise Unsupported('in-place operator on `%s`, which is (an alias, view or reshape of) a parameter, an attribute or a shared result' % name)
+
+  def shape_guard(self, s, env):
+    """`if len(x.shape) != 1: raise …`: afterwards `x` is known to be one-dimensional."""
+    t = s.test
+    if not (isinstance(s.body[-1], ast.Raise) and isinstance(t, ast.Compare) and len(t.ops) == 1 and isinstance(t.ops[0], ast.NotEq)
+            and isinstance(t.comparators[0], ast.Constant) and t.comparators[0].value == 1 and isinstance(t.left, ast.Call)
+            and isinstance(t.left.func, ast.Name) and t.left.func.id == 'len' and len(t.left.args) == 1
+            and isinstance(t.left.args[0], ast.Attribute) and t.left.args[0].attr == 'shape' and isinstance(t.left.args[0].value, ast.Name)):
+      return None
+    nm = t.left.args[0].value.id
+    v = env.get(nm)
+    if not isinstance(v, Val) or v.kind != 'V' or not v.raw: return None
+    r = V(v.elem, v.length, v.ek, atom=v.atom); r.isfloat = v.isfloat
+    return nm, r
 
   # ---------------------------------------------------------------- enclosing function (nested units)
   def enclosing_value(self, name):
@@ -1001,8 +1362,11 @@ class Ctx:
 _orig_call = Ctx.call
 def _call(self, e, env):
   f = e.func
-  if (isinstance(f, ast.Attribute) and isinstance(f.value, ast.Name) and f.value.id == 'np' and f.attr == 'vectorize'
-      and len(e.args) == 1 and not (set(k.arg for k in e.keywords) - {'otypes'})):
+  if isinstance(f, ast.Attribute) and isinstance(f.value, ast.Name) and f.value.id == 'np' and f.attr == 'vectorize':
+    # the output dtype must be pinned to float: without `otypes` numpy takes it from the first slot's result
+    ok = (len(e.args) == 1 and len(e.keywords) == 1 and e.keywords[0].arg == 'otypes' and isinstance(e.keywords[0].value, ast.List)
+          and len(e.keywords[0].value.elts) == 1 and is_float_dtype(e.keywords[0].value.elts[0]))
+    if not ok: raise Unsupported('np.vectorize without otypes=[float] (the output dtype is then not float64 by construction)')
     return self.ev_vectorize(e)
   return _orig_call(self, e, env)
 Ctx.call = _call
@@ -1056,6 +1420,7 @@ class TU:
         if isinstance(node, ast.ClassDef): self.classes[node.name] = node
         if isinstance(node, ast.FunctionDef) and fn == 'utils.py': self.funcs[node.name] = node
     self.units = {}
+    self.tainted, self.shadow = scan_bindings(os.path.join(repo, 'device_kit'), set(self.classes))
     # scalar kernels of vk/translate.py: (class, method) -> (lean name, kinds, uses_pow, uses_cast)
     info = {}
     T1.translate_kernels(os.path.join(repo, 'device_kit', 'functions.py'), info)
@@ -1102,6 +1467,8 @@ class TU:
     node, encl = self.locate(u)
     if node is None: raise Unsupported('unit not found (or not unique)')
     u.line = node.lineno
+    for key in ((u.cls, u.fn), (u.cls, '*')):
+      if key in self.tainted: raise Unsupported('the `def` is not what the name denotes: ' + self.tainted[key])
     ctx = Ctx(self, u, self.classes.get(u.cls))
     ctx.hof_used = set(); ctx.extra_params = []
     names = [a.arg for a in node.args.args]
@@ -1130,16 +1497,18 @@ class TU:
       if kind is None: raise Unsupported('parameter %s has no declared kind' % nm)
       params.append((nm, kind))
     if encl is not None:
-      # free variables of the closure that are loop variables / unpacked tuples of the enclosing function: parameters
-      used = {x.id for x in ast.walk(node) if isinstance(x, ast.Name)}
-      for nm in sorted(u.args):
-        if nm not in [p for p, _ in params] and nm in used and nm not in names:
-          params.append((nm, u.args[nm]))
+      # a closure reads its free variables when it is CALLED: a free name that the enclosing function binds more than once
+      # or inside a loop (loop variable, `mask`, `cbound` …) has, by then, its LAST value — unless it was bound as a default
+      # argument (`i=i`).  Such late-binding closures are not denoted.
+      late = sorted(free_names(node) & unstable_names(encl))
+      if late: raise Unsupported('late-binding closure: `%s` is rebound by the enclosing function and not captured as a default argument' % '`, `'.join(late))
     for nm, kind in params:
       ln = lname(nm)
       if kind == 'S': env[nm] = S(ln)
       elif kind == 'N': env[nm] = N(ln)
-      elif kind == 'V': env[nm] = ctx.paren_elem(V((lambda a: lambda i: '%s %s' % (a, i))(ln), 'n', 'a', atom=ln))
+      elif kind in ('V', 'V1'):
+        env[nm] = ctx.paren_elem(V((lambda a: lambda i: '%s %s' % (a, i))(ln), 'n', 'a', atom=ln))
+        env[nm].raw = (kind == 'V')      # a flow / price as passed in may be (n,) or (1, n) until it is reshaped
       else: raise Unsupported('parameter kind ' + kind)
     if encl is not None:
       for nm, kind in params:
@@ -1147,7 +1516,7 @@ class TU:
     if isinstance(node, ast.Lambda): res = ctx.ev(node.body, env)
     else: res = ctx.run(node.body, env)
     params = params + ctx.extra_params
-    u.has_n = u.cls is not None or any(k == 'V' for _, k in params)
+    u.has_n = u.cls is not None or any(k in ('V', 'V1') for _, k in params)
     ek_default = 'n' if u.mode == 'n' else 'a'
     if res.kind == 'I': res = S(lit(res.term, ek_default), ek_default)
     if res.kind == 'N': res = S(res.term, 'n')
@@ -1172,7 +1541,7 @@ class TU:
         else:
           binders.append('(%s : %s)' % (ln, {'S': 'α', 'V': 'Nat → α', 'VE': 'Nat → ε', 'N': 'Nat', 'VL': 'Nat → List α'}[k]))
     for nm, kind in params:
-      binders.append('(%s : %s)' % (lname(nm), {'S': 'α', 'V': 'Nat → α', 'N': 'Nat'}[kind]))
+      binders.append('(%s : %s)' % (lname(nm), {'S': 'α', 'V': 'Nat → α', 'V1': 'Nat → α', 'N': 'Nat'}[kind]))
     u.params = params; u.ret = (res.kind, res.ek); u.uses_pow = ctx.uses_pow; u.uses_cast = ctx.uses_cast
     u.retlen = (res.length if res.kind == 'V' else res.rows if res.kind == 'M' else None)
     u.ok = True
@@ -1280,6 +1649,28 @@ def regenerate(repo=None):
           't1_vec_t2_only': ['%s (%s): %s' % x for x in T2_ONLY]}
 
 
+def record_pins(repo=None):
+  """the current definitions of every attribute the translators read as a parameter / derived value (for review)."""
+  global RECORD
+  RECORD = {}
+  try:
+    translate_all(repo or REPO)
+    try:
+      from vk import translate_sets as TS
+      TS.translate_all(repo or REPO)
+    except ImportError:
+      pass
+    return RECORD
+  finally:
+    RECORD = None
+
+
 if __name__ == '__main__':
   import json
-  print(json.dumps(regenerate(sys.argv[1] if len(sys.argv) > 1 else None), indent=1))
+  if len(sys.argv) > 1 and sys.argv[1] == '--pins':
+    from vk import translate_vec as _pkg      # the module object vk/translate_sets.py sees (not __main__)
+    rec = _pkg.record_pins(sys.argv[2] if len(sys.argv) > 2 else None)
+    json.dump(rec, open(PINS_FILE, 'w'), indent=1, sort_keys=True)
+    print('wrote %s: %d classes, %d attributes' % (PINS_FILE, len(rec), sum(len(v) for v in rec.values())))
+  else:
+    print(json.dumps(regenerate(sys.argv[1] if len(sys.argv) > 1 else None), indent=1))
